@@ -18,6 +18,9 @@ def run(c):
   # hosting a scripted policy that delivers n-2..n+3 suggestions and never fails
   svccheck.differential(c, 'C02', 30 if c.tier == 'quick' else 300, ['local:ram'], {'local:ram': cfgs['ram']}, weights=WEIGHTS,
                         clients=('w1', 'w2', 'w3'), lengths=(5, 20), fail_rate=0.0, directed=False)
+  # several workers through ONE client handle (the documented multi-worker use): Model/Client.lean
+  from vcheck import clientcheck
+  clientcheck.stage(c, 'C02')
   svc.cleanup()
   return c.finish(
       level='proof',
